@@ -1,1 +1,272 @@
-//! C16 monitor (filled in below)
+//! C16 — no numeric field is silently truncated; declared durations match the tables.
+//! (a) the independent reader recomputes every numeric field from the ledger and demands exact
+//!     equality whenever the producing call returned Ok; (b) hook H2: a lossy narrowing cast inside
+//!     a call that returned Ok is a violation by itself.
+
+use super::*;
+use crate::exec::{CastEv, FExec};
+use crate::specdec as sd;
+
+fn v(sig: String, detail: String) -> Violation {
+    Violation::new("C16", sig, detail)
+}
+
+/// (b) lossy casts observed during calls that returned Ok
+pub fn check_casts(casts: &[CastEv], ok_at: &dyn Fn(usize) -> bool, opname: &dyn Fn(usize) -> String, obs: &mut Obs) -> Vec<Violation> {
+    let mut out = Vec::new();
+    obs.count("cast_events_observed", casts.len() as u64);
+    for c in casts {
+        if !c.fits {
+            obs.count("lossy_cast_events", 1);
+            if ok_at(c.op) {
+                let sig = format!("lossy-cast|{}", c.site);
+                if !out.iter().any(|x: &Violation| x.sig == sig) {
+                    out.push(v(sig, format!("call #{} {} returned Ok although value {} does not fit the {}-bit {} field at {}", c.op, opname(c.op), c.value, c.bits, if c.signed { "signed" } else { "unsigned" }, c.site)));
+                }
+            } else {
+                obs.count("lossy_casts_in_failed_calls(ok)", 1);
+            }
+        }
+    }
+    out
+}
+
+fn dur_ms(ticks: u64) -> (u64, u64) {
+    // movie-timescale duration of a media duration: floor .. ceil
+    let lo = (ticks as u128 * 1000 / 90_000) as u64;
+    let hi = ((ticks as u128 * 1000 + 89_999) / 90_000) as u64;
+    (lo, hi)
+}
+
+/// (a) recompute the numeric fields of a finished progressive file.
+pub fn check_file(a: &Analysis, obs: &mut Obs) -> Vec<Violation> {
+    let mut out = Vec::new();
+    if !a.finished_ok() {
+        return out;
+    }
+    let cfg = &a.h.cfg;
+    let mut track_durs: Vec<(u32, u64)> = Vec::new();
+    // ---- per track: deltas, offsets, media duration
+    for (name, track) in [("video", a.video_track()), ("audio", a.audio_track())] {
+        let Some(t) = track else { continue };
+        let exp_dts: Vec<Option<u64>> = if name == "video" { a.ledger.video.iter().map(|f| f.dts.lo()).collect() } else { a.ledger.audio.iter().map(|f| f.pts.lo()).collect() };
+        let exact = exp_dts.iter().all(|x| x.is_some()) && !a.ledger.any_ambiguous;
+        let n = exp_dts.len();
+        if t.samples.len() != n {
+            continue;
+        }
+        let sum: u64 = t.samples.iter().map(|s| s.dur as u64).sum();
+        track_durs.push((t.track_id, sum));
+        if exact && n >= 2 {
+            for i in 0..n - 1 {
+                let want = exp_dts[i + 1].unwrap() - exp_dts[i].unwrap();
+                if want > u32::MAX as u64 {
+                    out.push(v(format!("{}|stts.delta|gap-does-not-fit-32-bits-but-write-accepted", name), format!("samples {}..{}: gap {} ticks", i + 1, i + 2, want)));
+                    break;
+                }
+                if t.samples[i].dur as u64 != want {
+                    out.push(v(format!("{}|stts.delta|value", name), format!("sample {}: stts delta {} but submitted timestamps differ by {} ticks", i + 1, t.samples[i].dur, want)));
+                    break;
+                }
+            }
+            obs.count("deltas_recomputed", (n - 1) as u64);
+        }
+        if name == "video" && exact {
+            for (i, (s, f)) in t.samples.iter().zip(a.ledger.video.iter()).enumerate() {
+                if let (Some(p), Some(d)) = (f.pts.lo(), f.dts.lo()) {
+                    let want = p as i128 - d as i128;
+                    if s.cts_off as i128 != want {
+                        let fits = want >= i32::MIN as i128 && want <= i32::MAX as i128;
+                        out.push(v(
+                            format!("video|ctts.offset|{}", if fits { "value" } else { "does-not-fit-32-bits-but-write-accepted" }),
+                            format!("sample {}: composition offset {} but pts - dts = {} ticks", i + 1, s.cts_off, want),
+                        ));
+                        break;
+                    }
+                }
+            }
+        }
+        // declared media duration = sum of the table
+        if t.mdhd.duration != sum {
+            out.push(v(
+                format!("{}|mdhd.duration|{}", name, if sum > u32::MAX as u64 { "sum-exceeds-32-bits" } else { "value" }),
+                format!("mdhd (version {}) duration {} but the sample durations add up to {}", t.mdhd.version, t.mdhd.duration, sum),
+            ));
+        }
+        obs.count("media_durations_recomputed", 1);
+    }
+    // ---- movie duration = longest track in movie timescale (+-1)
+    if let Some(&(_, longest)) = track_durs.iter().max_by_key(|x| x.1) {
+        if a.movie.mvhd.timescale == 1000 {
+            let (lo, hi) = dur_ms(longest);
+            let d = a.movie.mvhd.duration;
+            if d + 1 < lo || d > hi + 1 {
+                let video_sum = a.video_track().map(|t| t.samples.iter().map(|s| s.dur as u64).sum::<u64>()).unwrap_or(0);
+                let how = if hi > u32::MAX as u64 {
+                    "exceeds-32-bits"
+                } else if longest != video_sum {
+                    "audio-track-longer-than-video"
+                } else {
+                    "value"
+                };
+                out.push(v(format!("mvhd.duration|{}", how), format!("mvhd duration {} ms but the longest track lasts {} ticks = {}..{} ms (track durations {:?})", d, longest, lo, hi, track_durs)));
+            }
+            obs.count("movie_durations_recomputed", 1);
+        }
+    }
+    // ---- tkhd durations (strict decode; skipped when the tkhd layout itself is invalid: C19)
+    if let Some(moov) = a.tree.find_top(b"moov").first() {
+        for trak in moov.children_of(b"trak") {
+            if let Some(tk) = trak.child(b"tkhd") {
+                let mut dev = Vec::new();
+                match sd::tkhd(tk.payload(a.bytes), &mut dev) {
+                    Some(h) => {
+                        if let Some(&(_, sum)) = track_durs.iter().find(|x| x.0 == h.track_id) {
+                            let (lo, hi) = dur_ms(sum);
+                            if h.duration + 1 < lo || h.duration > hi + 1 {
+                                out.push(v("tkhd.duration|value".into(), format!("track {} tkhd duration {} but its samples last {}..{} ms", h.track_id, h.duration, lo, hi)));
+                            }
+                        }
+                    }
+                    None => obs.count("tkhd_duration_not_judged(tkhd layout invalid: C19)", 1),
+                }
+            }
+        }
+    }
+    // ---- dimensions, rates, channel counts, parameter-set lengths
+    if let Some(vt) = a.video_track() {
+        let mut dev = Vec::new();
+        if let Some(ve) = sd::visual_entry(&vt.entry, &mut dev) {
+            if (ve.width as u32, ve.height as u32) != (cfg.width, cfg.height) {
+                out.push(v("sample-entry.dimensions|truncated".into(), format!("sample entry {}x{} but configured {}x{}", ve.width, ve.height, cfg.width, cfg.height)));
+            }
+            // parameter sets byte-exact (lengths are 16-bit fields)
+            if let Some(first) = a.ledger.video.first() {
+                let key = a.h.ops[first.op].data().unwrap_or(&[]);
+                let mut scratch = Obs::default();
+                let side = super::c07::Side::default();
+                // C07's comparison without its ">65535 delegated to C16" skip: replicate the size test
+                let units = crate::model::basic::units(key);
+                let big = units.iter().any(|u| u.len() > 65_535 && matches!(cfg.vcodec, H264 | H265) && (if cfg.vcodec == H264 { matches!(u[0] & 0x1f, 7 | 8) } else { matches!((u[0] >> 1) & 0x3f, 32..=34) }));
+                if big {
+                    out.push(v(format!("{}.parameter-set-length|does-not-fit-16-bits-but-write-accepted", if cfg.vcodec == H264 { "avcC" } else { "hvcC" }), "a parameter set longer than 65535 bytes was accepted and stored with a 16-bit length".into()));
+                }
+                let _ = (&mut scratch, &side);
+            }
+        }
+    }
+    if let (Some(at), Some(ac)) = (a.audio_track(), cfg.audio_effective()) {
+        let mut dev = Vec::new();
+        if let Some(ae) = sd::audio_entry(&at.entry, &mut dev) {
+            let rate = if ac.is_opus() { 48_000 } else { ac.rate };
+            let want = (rate as u64) << 16;
+            if ae.rate_fixed as u64 != want {
+                out.push(v(
+                    format!("{}.samplerate|{}", bmff::fourcc(&ae.typ), if want > u32::MAX as u64 { "rate-above-65535-wraps" } else { "value" }),
+                    format!("sample entry rate field {:#010x} but {} Hz is {:#x} as 16.16", ae.rate_fixed, rate, want),
+                ));
+            }
+            if ae.channels != ac.channels {
+                out.push(v("audio-entry.channelcount|value".into(), format!("{} vs configured {}", ae.channels, ac.channels)));
+            }
+            if ac.is_opus() {
+                if let Some(d) = ae.children.iter().find(|c| &c.0 == b"dOps").and_then(|c| sd::dops(&c.1, &mut dev)) {
+                    if d.channels as u16 != ac.channels {
+                        out.push(v(format!("dOps.OutputChannelCount|{}", if ac.channels > 255 { "channels-above-255-truncated" } else { "value" }), format!("dOps channels {} but configured {}", d.channels, ac.channels)));
+                    }
+                }
+            }
+        }
+    }
+    // tkhd dimensions (16.16) when the layout is valid
+    if let Some(moov) = a.tree.find_top(b"moov").first() {
+        if let Some(tk) = moov.children_of(b"trak").first().and_then(|t| t.child(b"tkhd")) {
+            let mut dev = Vec::new();
+            if let Some(h) = sd::tkhd(tk.payload(a.bytes), &mut dev) {
+                if (h.width as u64, h.height as u64) != ((cfg.width as u64) << 16, (cfg.height as u64) << 16) {
+                    out.push(v("tkhd.dimensions|value".into(), format!("tkhd {:#x} x {:#x} for {}x{}", h.width, h.height, cfg.width, cfg.height)));
+                }
+            }
+        }
+    }
+    obs.count("files_recomputed", 1);
+    out
+}
+
+/// Fragmented: trun durations / offsets / tfdt recomputed; init-segment dimensions and set lengths.
+pub fn check_frag(h: &FHistory, ex: &FExec, obs: &mut Obs) -> Vec<Violation> {
+    let mut out = Vec::new();
+    let mut queue: Vec<(u64, u64, usize)> = Vec::new();
+    for (op, res) in h.ops.iter().zip(ex.results.iter()) {
+        match (op, res) {
+            (FOp::Write { pts, dts, data, .. }, FRes::Ok) => queue.push((*pts, *dts, data.len())),
+            (FOp::Flush, FRes::Seg(Some(bytes))) => {
+                let tree = bmff::parse_tree(bytes);
+                let f = bmff::parse_fragment(bytes, &tree, None);
+                if f.samples.len() == queue.len() {
+                    for k in 0..queue.len() {
+                        if k + 1 < queue.len() {
+                            let want = queue[k + 1].1 - queue[k].1;
+                            if f.samples[k].dur as u64 != want {
+                                out.push(v(
+                                    format!("trun.duration|{}", if want > u32::MAX as u64 { "gap-does-not-fit-32-bits-but-segment-emitted" } else { "value" }),
+                                    format!("sample {} duration {} but dts gap {}", k + 1, f.samples[k].dur, want),
+                                ));
+                                break;
+                            }
+                        }
+                        let want = queue[k].0 as i128 - queue[k].1 as i128;
+                        if f.samples[k].cts_off as i128 != want {
+                            out.push(v(
+                                format!("trun.composition-offset|{}", if want > i32::MAX as i128 || want < i32::MIN as i128 { "does-not-fit-32-bits-but-segment-emitted" } else { "value" }),
+                                format!("sample {} offset {} but pts - dts = {}", k + 1, f.samples[k].cts_off, want),
+                            ));
+                            break;
+                        }
+                        if f.samples[k].size as usize != queue[k].2 {
+                            out.push(v("trun.size|value".into(), format!("sample {} size {} but {} bytes were written", k + 1, f.samples[k].size, queue[k].2)));
+                            break;
+                        }
+                    }
+                    obs.count("segments_recomputed", 1);
+                }
+                queue.clear();
+            }
+            (FOp::Init, FRes::Bytes(b)) => {
+                let tree = bmff::parse_tree(b);
+                let m = bmff::parse_movie(b, &tree);
+                if let Some(t) = m.tracks.first() {
+                    let mut dev = Vec::new();
+                    if let Some(ve) = sd::visual_entry(&t.entry, &mut dev) {
+                        if (ve.width as u32, ve.height as u32) != (h.cfg.width, h.cfg.height) {
+                            out.push(v("init.sample-entry.dimensions|truncated".into(), format!("sample entry {}x{} but configured {}x{}", ve.width, ve.height, h.cfg.width, h.cfg.height)));
+                        }
+                    }
+                    for (name, set) in [("sps", &h.cfg.sps), ("pps", &h.cfg.pps), ("vps", &h.cfg.vps)] {
+                        if let Some(s) = set {
+                            if s.len() > 65_535 && matches!(h.cfg.vcodec, H264 | H265) && !(name == "vps" && h.cfg.vcodec == H264) {
+                                out.push(v(format!("init.{}-length|does-not-fit-16-bits-but-init-emitted", name), format!("{} of {} bytes stored with a 16-bit length", name, s.len())));
+                            }
+                        }
+                    }
+                }
+                if let Some(moov) = tree.find_top(b"moov").first() {
+                    if let Some(tk) = moov.children_of(b"trak").first().and_then(|t| t.child(b"tkhd")) {
+                        let mut dev = Vec::new();
+                        if let Some(hd) = sd::tkhd(tk.payload(b), &mut dev) {
+                            if (hd.width as u64, hd.height as u64) != ((h.cfg.width as u64) << 16, (h.cfg.height as u64) << 16) {
+                                out.push(v("init.tkhd.dimensions|truncated".into(), format!("tkhd {:#x} x {:#x} for {}x{}", hd.width, hd.height, h.cfg.width, h.cfg.height)));
+                            }
+                        }
+                    }
+                }
+                obs.count("init_segments_recomputed", 1);
+            }
+            _ => {}
+        }
+        if !out.is_empty() {
+            break;
+        }
+    }
+    out
+}
